@@ -257,13 +257,25 @@ def job_gen(ch):
         sim = [(65530, 0, 40, 30)]
     else:
         confs = [(0, 0, 4), (5, 0, 4), (32768, 0, 4), (65530, 0, 4), (5, 3, 4), (65530, 2, 3)]
-        sim = [(65530, 0, 200, 300), (5, 0, 200, 300), (32768, 3, 100, 300)]
+        sim = [(65530, 0, 300, 20), (5, 0, 300, 20), (32768, 3, 300, 10)]
     scripts = []
     for base, pre, depth in confs:
         scripts += gen_scripts(ch, base, pre, depth)
     for base, pre, depth, num in sim:
+        # every walk is printed once per successor of its last state (about 16 leaves per walk)
         scripts += gen_scripts(ch, base, pre, depth, simulate=(num, depth + pre + 2))
-    unwrap_batch(ch, scripts, "G-chains")
+    # one TLC validation run per <= 200 000 events (measured: 250 000 events validate in 5 s; a single trace of several
+    # million events makes TLC crawl and trips over its periodic checkpoint)
+    part, n, k = [], 0, 0
+    for sc in scripts + [None]:
+        if sc is None or n + len(sc["in"]) + 1 > 200000:
+            if part:
+                unwrap_batch(ch, part, "G-chains-%d" % k)
+                k += 1
+            part, n = [], 0
+        if sc is not None:
+            part.append(sc)
+            n += len(sc["in"]) + 1
 
 
 def job_random(rng_seed, nchains, length):
@@ -293,7 +305,7 @@ def unwrap_jobs(ctx, rng):
         jobs.append(("rand", job_random(rng.randrange(10 ** 9), 60, 300)))
         ctx.extra["table_states"] = {"boundary": len(low) + len(mid) + len(high) + 1}
     else:
-        stride = int(os.environ.get("VERIF_C20_STRIDE", "4"))
+        stride = int(os.environ.get("VERIF_C20_STRIDE", "3"))
         procs = int(os.environ.get("VERIF_C20_PROCS", str(max(2, min(8, vlib.NCPU // 2)))))
         offset = ctx.seed % stride
         top = 2 * M + 64
